@@ -670,6 +670,23 @@ class ScriptEnv:
         "    context.run_migrations()\n"
     )
 
+    # the multidb pattern: one env.py run, several configure() calls on the same EnvironmentContext, each with the hooks
+    # it was given (and without a hook it was not given), each followed by its own run_migrations()
+    ENV_PY_MULTI = (
+        "from alembic import context\n"
+        "a = context.config.attributes\n"
+        "for i, r in enumerate(a['runs']):\n"
+        "    kw = dict(connection=a['connection'], target_metadata=a['metadata'], include_schemas=a['include_schemas'],\n"
+        "              process_revision_directives=a['prd'], upgrade_token='u%d' % i, downgrade_token='d%d' % i)\n"
+        "    if r.get('include_object') is not None:\n"
+        "        kw['include_object'] = r['include_object']\n"
+        "    if r.get('include_name') is not None:\n"
+        "        kw['include_name'] = r['include_name']\n"
+        "    context.configure(**kw)\n"
+        "    with context.begin_transaction():\n"
+        "        context.run_migrations()\n"
+    )
+
     def __init__(self):
         import io
         import os
@@ -698,6 +715,30 @@ class ScriptEnv:
         command.revision(self.cfg, autogenerate=True)
         return got["script"]
 
+    def autogenerate_multi(self, conn, metadata, runs, include_schemas):
+        """runs: [{'include_object': callable|None, 'include_name': callable|None}]; one env.py run with one configure()
+        per entry; returns the UpgradeOps of each"""
+        import os
+        from alembic import command
+        got = {"n": 0}
+
+        def prd(context, revision, directives):
+            got["n"] += 1
+            if got["n"] == len(runs):
+                got["script"] = directives[0]
+                directives[:] = []          # nothing is written
+
+        env_py = os.path.join(self.tmp, "scripts", "env.py")
+        self.cfg.attributes.update(connection=conn, metadata=metadata, runs=runs, include_schemas=include_schemas, prd=prd)
+        try:
+            with open(env_py, "w") as f:
+                f.write(self.ENV_PY_MULTI)
+            command.revision(self.cfg, autogenerate=True)
+        finally:
+            with open(env_py, "w") as f:
+                f.write(self.ENV_PY)
+        return list(got["script"].upgrade_ops_list)
+
     def close(self):
         import shutil
         shutil.rmtree(self.tmp, ignore_errors=True)
@@ -709,8 +750,9 @@ def run_autogen(conn, metadata, obj_pred=None, name_pred=None, include_schemas=F
     --autogenerate through env.py / EnvironmentContext.configure)"""
     opts = {"target_metadata": metadata, "include_schemas": include_schemas}
     calls = calls if calls is not None else []
-    io_ = make_obj_callable(obj_pred, calls) if obj_pred is not None else None
-    in_ = make_name_callable(name_pred, calls) if name_pred is not None else None
+    multi = via == "multi"
+    io_ = make_obj_callable(obj_pred, calls) if obj_pred is not None and not multi else None
+    in_ = make_name_callable(name_pred, calls) if name_pred is not None and not multi else None
     if io_ is not None:
         opts["include_object"] = io_
     if in_ is not None:
@@ -724,6 +766,12 @@ def run_autogen(conn, metadata, obj_pred=None, name_pred=None, include_schemas=F
     try:
         with warnings.catch_warnings():
             warnings.simplefilter("ignore")
+            if via == "multi":
+                # obj_pred / name_pred are lists here; a predicate that accepts everything is given as "no hook"
+                runs = [{"include_object": make_obj_callable(o, []) if o not in (None, ACCEPT_ALL) else None,
+                         "include_name": make_name_callable(n, []) if n not in (None, ACCEPT_ALL) else None}
+                        for o, n in zip(obj_pred, name_pred)]
+                return [sorted(canon_ops(u), key=op_sort_key) for u in env.autogenerate_multi(conn, metadata, runs, include_schemas)], 0
             if via == "command":
                 script = env.autogenerate(conn, metadata, io_, in_, include_schemas)
                 ops_ = canon_ops(script.upgrade_ops)
